@@ -22,6 +22,7 @@ from vf.props import c15
 
 CASE = None
 ACTION_R = -1
+ACTION_F = -2
 HERE = os.path.dirname(os.path.dirname(os.path.dirname(os.path.abspath(__file__))))
 
 
@@ -55,7 +56,41 @@ CORPUS = [
     ("[-0.0, 1, 'x', (1,)]", {}),
     ("[0.0, True, 'x', (1.0,)]", {}),
     ("[1.0, 0, b'x', (True,)]", {}),
+    # a ChainMap whose first layer creates missing keys on lookup
+    ("collections.ChainMap(collections.defaultdict(int, {'a': 5}), {'a': 1, 'b': 2, 'c': 3})", {}),
+    ("[collections.defaultdict(list, {'k': [1]}), collections.Counter({'x': 2})]", {}),
+    # a value whose nested element can be made to fail (action F prints it with the failure armed)
+    ("{'k': [vf.props.c19.FLAKY, 1], 'other': (2, [3])}", {}),
 ]
+
+
+class Flaky:
+    armed = False
+
+    def __repr__(self):
+        if Flaky.armed:
+            raise RuntimeError('repr of a nested element fails')
+        return 'FLAKY_ELEMENT'
+
+
+FLAKY = Flaky()
+FLAKY_INDEX = len(CORPUS) - 1
+
+
+def action_fail(ns):
+    """Action F of a history: a print that is aborted by an exception in the
+    middle of the traversal (the repr of a nested element raises)."""
+    v = eval(CORPUS[FLAKY_INDEX][0], dict(ns))
+    Flaky.armed = True
+    try:
+        try:
+            PKG.pformat(v)
+        except RuntimeError:
+            pass
+    finally:
+        Flaky.armed = False
+    return v
+
 
 
 class RecBase(dict):
@@ -161,7 +196,7 @@ class HistoryCase(base.CaseBase):
         super().__init__(params)
         self.baselines = params['baselines']
         # the last "index" of the full alphabet is the registration action R
-        self.indices = params.get('indices') or (list(range(len(CORPUS))) + [ACTION_R])
+        self.indices = params.get('indices') or (list(range(len(CORPUS))) + [ACTION_F, ACTION_R])
         self.k = params['k']
         self.first = params.get('first')
         self.slice = params.get('slice', 'default')
@@ -172,7 +207,7 @@ class HistoryCase(base.CaseBase):
 
     def pre(self, hist, target, w, rw):
         n = len(self.indices)
-        ntargets = n - 1 if self.indices[-1] == ACTION_R else n     # the action is never a target
+        ntargets = n - 2 if self.indices[-1] == ACTION_R else n     # the actions are never a target
         if not (0 <= target and target < ntargets):
             return False
         for j, h in enumerate(hist):
@@ -202,14 +237,14 @@ class HistoryCase(base.CaseBase):
 
     def execute(self, hs, t, w, rw):
         reset_all()
-        describe = lambda: 'history=%r (index -1 = register a printer by name for RecBase) target=%r (%s)' % (
+        describe = lambda: 'history=%r (index -1 = register a printer by name for RecBase, -2 = a print aborted by an exception) target=%r (%s)' % (
             hs, t, CORPUS[t][0][:60])
         try:
             with warnings.catch_warnings():
                 warnings.simplefilter('ignore')
                 values = {}
                 snaps = {}
-                for i in set(x for x in hs + [t] if x != ACTION_R):
+                for i in set(x for x in hs + [t] if x >= 0):
                     # values are built untraced (the tracer would substitute
                     # its own datetime / container proxies)
                     with NoTracing():
@@ -220,6 +255,13 @@ class HistoryCase(base.CaseBase):
                     if i == ACTION_R:
                         action_register()
                         registered = True
+                        continue
+                    if i == ACTION_F:
+                        # the aborted print uses the very object a later target may print again
+                        with NoTracing():
+                            fv = action_fail(self.ns)
+                        values[FLAKY_INDEX] = fv
+                        snaps[FLAKY_INDEX] = snapshot(fv)
                         continue
                     kw = dict(CORPUS[i][1])
                     if self.traced and not self.native:
@@ -265,7 +307,7 @@ class HistoryCase(base.CaseBase):
             return self.fail('C19:output-depends-on-history',
                              lambda: describe() + '\ngot:\n%s\nfresh interpreter:\n%s' % (got, want))
         with NoTracing():
-            for i in set(x for x in hs + [t] if x != ACTION_R):
+            for i in set(x for x in hs + [t] if x >= 0):
                 if snapshot(values[i]) != snaps[i]:
                     return self.fail('C19:input-mutated',
                                      lambda: describe() + '\nvalue %d: %r\nbefore: %r' % (i, snapshot(values[i]), snaps[i]))
@@ -309,7 +351,7 @@ def replay_case(task):
 
 def cases(tier, seed):
     baselines = fresh_baselines()
-    n = len(CORPUS) + 1          # + the registration action
+    n = len(CORPUS) + 2          # + the two actions
     out = []
     out.append({'name': 'k0:all-targets', 'family': 'history',
                 'params': {'k': 0, 'baselines': baselines, 'traced': True}, 'budget': 200.0, 'twin': True})
